@@ -21,7 +21,7 @@ EXPLANATION = (
     ' Rounds 7-8: R5 also: self._ac_timer_status is assigned in __init__ and update_ac_timer_status only.'
 )
 ASSUMPTIONS = ["round() is Python's banker's rounding; ties are outside the decided clauses"]
-FLOORS = {"C11.R1": 12, "C11.R2": 8, "C11.R3": 18, "C11.R4": 6, "C11.R5": 8, "C11.R6": 1, "C11.R7": 1, "C11.R8": 1, "C11.R9": 1, "C11.R10": 1}
+FLOORS = {"C11.R1": 12, "C11.R2": 8, "C11.R3": 18, "C11.R4": 6, "C11.R5": 8, "C11.R6": 1, "C11.R7": 1, "C11.R8": 1, "C11.R9": 1, "C11.R10": 1, "C11.R11": 1}
 
 ZONES = ((AT4_API, "At4Zone"), (AT5_API, "At5Zone"))
 ACS = ((AT4_API, "At4AirConditioner"), (AT5_API, "At5AirConditioner"))
@@ -47,6 +47,8 @@ def run(ctx):
 
     reuse(ctx, "C11.R10", [c01.r3, c01.r5], "an accepted call ends in the queue and only the drain writes: a write fault is absorbed there (retry, reset), it never surfaces from a setter or costs the frame (C01.R3/R5)",
           keep=lambda o: "who-may-call" in o.construct or "every-accepted" in o.construct or o.verdict != "HOLDS")
+    reuse(ctx, "C11.R11", [c02.r2], "the retry budget a setter names is the one its frame gets: the shared RETRY_* policy objects are never written to, and a write fault always reaches the handler that retries (C02.R2)",
+          keep=lambda o: "RetryPolicy" in o.construct or "write-faults" in o.construct or o.verdict != "HOLDS")
     reuse(ctx, "C11.R8", [c02.r5], "an accepted call is not silently dropped: commands are sent with a 30 s policy, never with the connected-only policy of the requests (C02.R5)",
           keep=lambda o: "command-lifetime" in o.construct or "idempotent-command" in o.construct or o.verdict != "HOLDS")
     reuse(ctx, "C11.R7", [c07.r7], "a raising subscriber does not abort the loop over the records of a status frame, so the abilities/sensor flags the validity checks read are those of the latest frame for every entity (C07.R7)")
